@@ -343,7 +343,7 @@ def run_c01(tier, seed, verdict):
         log(f"[C01] TLC validated {val['records']} real encoder outputs against the reference decoder in {val['wall_s']}s")
     st = selftest_vectors("c01", vectors, wd)
     coverage = dict(
-        states=sum(m["distinct"] for m in cov["mc"]) + val["states"], transitions=sum(m["generated"] for m in cov["mc"]) + val["states"],
+        states=sum(m["distinct"] for m in cov["mc"]), transitions=sum(m["generated"] for m in cov["mc"]), trace_states=val["states"],
         mc=cov["mc"], traces_validated_against_impl=val["records"],
         evaluations=summ["vectors"] if summ else 0, vector_checks=summ["checks"] if summ else 0,
         distinct_nontrivial=summ["container_vectors"] if summ else 0,
@@ -414,7 +414,7 @@ def run_c07(tier, seed, verdict):
             r["skip"] = dict(r="ok", n=len(r["in"]) + 1)
         st = selftest_records("C07", line, mut, wd, cfg)
     coverage = dict(
-        states=sum(m["distinct"] for m in cov["mc"]) + val["states"], transitions=sum(m["generated"] for m in cov["mc"]) + val["states"],
+        states=sum(m["distinct"] for m in cov["mc"]), transitions=sum(m["generated"] for m in cov["mc"]), trace_states=val["states"],
         mc=cov["mc"], traces_validated_against_impl=val["records"],
         evaluations=summ["records"] if summ else 0, distinct_nontrivial=summ["nontrivial"] if summ else 0,
         rule="one evaluation = one distinct input byte string on which every real walker (decode, skip, len, split-off, opaque "
@@ -467,8 +467,8 @@ def run_c13(tier, seed, verdict):
             f"in {val['wall_s'] + val2['wall_s']:.1f}s")
     stv = selftest_vectors("c13", vectors, wd)
     coverage = dict(
-        states=sum(m["distinct"] for m in cov["mc"]) + val["states"] + val2["states"],
-        transitions=sum(m["generated"] for m in cov["mc"]) + val["states"] + val2["states"],
+        states=sum(m["distinct"] for m in cov["mc"]), transitions=sum(m["generated"] for m in cov["mc"]),
+        trace_states=val["states"] + val2["states"],
         mc=cov["mc"], traces_validated_against_impl=val["records"] + val2["records"],
         evaluations=(summ["conv_records"] if summ else 0) + (vsumm["records"] if vsumm else 0),
         version_pair_checks=summ["checks"] if summ else 0,
